@@ -330,6 +330,9 @@ def check_lock_drops(ctx, prog, role, co):
            detail="lock moved out of the job coroutine" if esc else "lock stays in the coroutine")
     rns = ba.calls(re.escape(anchors.record_new_state(prog).key))
     if rns:
+        early = [d for d in drops if ba.path([d], rns, incl=False) is not None]
+        ctx.ob("R6.4", "%s|no-release-before-recording" % role, not early, where=ctx.where(co, early[0]) if early else co.span,
+               detail="no release point precedes record_new_state" if not early else "the lock is released before the job's result is recorded: another redo can decide about the target on stale state")
         commits = set(ba.calls(r"state::ProcessTransaction::commit"))
         commit_ret = {co.blocks[c]["term"].get("target") for c in commits}
         p = ba.path(rns, drops, avoid=frozenset(commits))
